@@ -18,7 +18,7 @@ def genActs : List (Nat × Action) := [
   (ReaderTables.pipeDone, .pipeDone), (ReaderTables.escByte, .escByte), (ReaderTables.escOne, .escOne),
   (ReaderTables.escUnicode4, .escUnicode4), (ReaderTables.escUnicode8, .escUnicode8),
   (ReaderTables.runeDigit, .runeDigit), (ReaderTables.runeHexA, .runeHexA), (ReaderTables.runeHexa, .runeHexa),
-  (ReaderTables.sharpByte, .sharpByte), (ReaderTables.charSlash, .charSlash), (ReaderTables.charDone, .charDone),
+  (ReaderTables.sharpByte, .sharpByte), (ReaderTables.charSlash, .charSlash), (ReaderTables.charFirst, .charFirst), (ReaderTables.charDone, .charDone),
   (ReaderTables.vectorByte, .vectorByte), (ReaderTables.binaryByte, .binaryByte), (ReaderTables.octByte, .octByte),
   (ReaderTables.hexByte, .hexByte), (ReaderTables.intDone, .intDone), (ReaderTables.sharpIntByte, .sharpIntByte),
   (ReaderTables.sharpNumByte, .sharpNumByte), (ReaderTables.radixByte, .radixByte),
@@ -39,6 +39,7 @@ def genTables : Tables where
   rune := ReaderTables.runeMode
   sharp := ReaderTables.sharpMode
   chr := ReaderTables.charMode
+  chrStart := ReaderTables.charStartMode
   int := ReaderTables.intMode
   sharpNum := ReaderTables.sharpNumMode
   mustArray := ReaderTables.mustArrayMode
